@@ -22,18 +22,32 @@
    object, dumped by harness/drv_rawdec.c; the configuration is chosen in Init, so one TLC run
    decides a whole list of configurations.
 
+   Lines that are too short for the service (a cropped or truncated line, samples_per_line from 1 up to
+   what the service needs) are configurations like any other.  The two interfaces differ:
+     vbi3_bit_slicer_set_params()  may refuse (returns FALSE, field ok = 0): then a later slice call reads
+                                   nothing and stores nothing (action Refused); or it accepts (ok = 1) and
+                                   the search limit it computed is judged by LineBound like every other;
+     vbi_bit_slicer_init()         is void and cannot refuse (ok = 1 always): whatever limit it computed,
+                                   every vbi_bit_slice() call must stay inside raw_samples.
+   The search limit `scan` is the SIGNED value of cri_samples / cri_bytes of the object.  The code counts
+   it down in an unsigned variable (Steps): a negative limit is not "no search" but 2^32 + scan steps,
+   and the low-pass slicer, which tests its counter after the loop body (0 == --i), wraps around with a
+   limit of 0.  Such a limit shows here as a search that walks out of the line (LineBound).
+
    Properties:  LineBound  - no access at or behind byte spl * bps of the line
                 InnerBound - a line that is not the last row of an image never reads behind the next row
                              (with LineBound for the last row: no access behind the image)
                 WriteBound - at most ceil(payload bits / 8) bytes are stored, and only when all bits were sampled
                 ChannelOk  - the sampled channel lies inside the pixel
+                RefusedIdle - a slicer whose parameters were refused reads and stores nothing
                 Rightward  - within the bits phase the accesses only move right
                 ScanRight  - the search only moves right, one sample per step               *)
-EXTENDS Naturals, Sequences, TLC
+EXTENDS Integers, Sequences, TLC
 
 CONSTANT Cfgs          \* set of configuration records, see MC_SlicerBounds / generated module SlicerCfgs
 
 Window == 16           \* low-pass window, samples
+Huge   == 2147483647   \* stands for a count of 2^32 - x steps (TLC's largest integer; every line ends long before)
 
 VARIABLES cf,          \* configuration under examination
           pc,          \* "idle", "pro" (low-pass prologue), "scan", "bits", "done"
@@ -62,6 +76,13 @@ ScanLast(c, m)  == IF c.lp = 1 THEN m + Window ELSE m + 1
 BitFirst(c, m, j) == IF c.lp = 1 THEN m + 1 + BitPos(c, j) ELSE m + BitPos(c, j)
 BitLast(c, m, j)  == IF c.lp = 1 THEN BitFirst(c, m, j) + Window - 1 ELSE BitFirst(c, m, j) + 1
 
+\* number of search steps: the limit is copied into an `unsigned int` counter.
+\*   CORE() of bit_slicer.c, bit_slicer_tmpl() of decoder.c:  for (i = limit; i > 0; --i)      a negative limit wraps
+\*   low_pass_bit_slicer_Y8():  i = limit; for (;;) { body; if (0 == --i) return FALSE; }    0 and negative limits wrap
+Steps(c) == IF c.scan < 0 THEN Huge
+            ELSE IF c.scan = 0 /\ c.lp = 1 THEN Huge
+            ELSE c.scan
+
 \* ---------------------------------------------------------------- behaviour
 Init == cf \in Cfgs /\ pc = "idle" /\ n = 0 /\ k = 0 /\ lo = 0 /\ hi = 0 /\ w = 0
 
@@ -69,12 +90,16 @@ Started(c) ==          \* state after the call began on configuration c
   /\ n' = 0 /\ k' = 0 /\ w' = 0
   /\ IF c.lp = 1
      THEN pc' = "pro" /\ lo' = ByteLo(c, 0) /\ hi' = ByteHi(c, Window - 1)
-     ELSE IF c.scan > 0
+     ELSE IF Steps(c) > 0
           THEN pc' = "scan" /\ lo' = ByteLo(c, 0) /\ hi' = ByteHi(c, ScanLast(c, 0))
           ELSE pc' = "done" /\ lo' = 0 /\ hi' = 0
 
 Start ==               \* the call: skip the sample offset, low-pass: sum up the first window
-  /\ pc = "idle" /\ cf' = cf /\ Started(cf)
+  /\ pc = "idle" /\ cf.ok = 1 /\ cf' = cf /\ Started(cf)
+
+Refused ==             \* the parameters were refused when the slicer was configured: a call returns FALSE at once
+  /\ pc = "idle" /\ cf.ok = 0
+  /\ pc' = "done" /\ UNCHANGED <<cf, n, k, lo, hi, w>>
 
 FirstScan ==           \* low-pass: the loop body runs before the step counter is tested
   /\ pc = "pro" /\ pc' = "scan" /\ n' = 0
@@ -82,12 +107,12 @@ FirstScan ==           \* low-pass: the loop body runs before the step counter i
   /\ UNCHANGED <<cf, k, w>>
 
 ScanStep ==            \* run-in not complete: next sample
-  /\ pc = "scan" /\ n + 1 < C.scan
+  /\ pc = "scan" /\ n + 1 < Steps(C)
   /\ n' = n + 1 /\ lo' = ByteLo(C, ScanFirst(C, n + 1)) /\ hi' = ByteHi(C, ScanLast(C, n + 1))
   /\ UNCHANGED <<cf, pc, k, w>>
 
 GiveUp ==              \* search limit reached
-  /\ pc = "scan" /\ n + 1 >= C.scan
+  /\ pc = "scan" /\ n + 1 >= Steps(C)
   /\ pc' = "done" /\ UNCHANGED <<cf, n, k, lo, hi, w>>
 
 CriFound ==            \* run-in complete in step n: first data bit
@@ -110,20 +135,24 @@ Deliver ==             \* all bits sampled: the payload is in the buffer
   /\ pc = "bits" /\ k + 1 = DataBits(C)
   /\ pc' = "done" /\ w' = Stored(C) /\ UNCHANGED <<cf, n, k, lo, hi>>
 
-Next == Start \/ FirstScan \/ ScanStep \/ GiveUp \/ CriFound \/ NextBit \/ FrcMismatch \/ Deliver
+Next == Start \/ Refused \/ FirstScan \/ ScanStep \/ GiveUp \/ CriFound \/ NextBit \/ FrcMismatch \/ Deliver
 Spec == Init /\ [][Next]_vars
 
 \* ---------------------------------------------------------------- properties
 Reading == pc \in {"pro", "scan", "bits"}
-TypeOK == /\ cf \in Cfgs /\ pc \in {"idle", "pro", "scan", "bits", "done"}
+TypeOK == /\ pc \in {"idle", "pro", "scan", "bits", "done"}
           /\ n \in Nat /\ k \in Nat /\ lo \in Nat /\ hi \in Nat /\ w \in Nat /\ lo <= hi
 LineBound  == Reading => hi < Limit(C)
 \* a line that is not the last row of its image is followed by at least one more row of the same size:
 \* whatever it reads behind its own end must stay inside that row (the last row is LineBound itself)
 InnerBound == Reading => hi < 2 * Limit(C)
+\* a refused configuration never reads a sample and never delivers
+RefusedIdle == C.ok = 0 => (pc \in {"idle", "done"} /\ w = 0)
 WriteBound == w <= Permitted(C) /\ (w > 0 => pc = "done" /\ k + 1 = DataBits(C))
 ChannelOk  == (C.skip - C.soff * C.bps) + C.wide < C.bps
 \* within a line the accesses of the data bits move to the right only (so the last bit is the worst)
 Rightward  == [][(pc = "bits" /\ pc' = "bits") => hi' >= hi]_vars
+\* the configuration is chosen once (Init: cf \in Cfgs) and never changes during a call
+CfgFixed   == [][cf' = cf]_vars
 ScanRight  == [][(pc = "scan" /\ pc' = "scan") => (hi' = hi + C.bps /\ lo' = lo + C.bps)]_vars
 =============================================================================
